@@ -713,6 +713,13 @@ pub fn gen_plain_case(t: &mut Tape, o: &GenOpts) -> DiffCase {
         }
         s.old_path = s.old_path.replace(' ', "_");
         s.new_path = p2;
+        // (two consecutive plain-diff sections with the same pair of names are a known
+        // finding, KF-C14-1: the second header is suppressed as a duplicate)
+        if let Some(Item::Section(prev)) = items.last() {
+            if prev.old_path == s.old_path && prev.new_path == s.new_path && !t.chance(1, 4) {
+                s.new_path = format!("other_{}", s.new_path);
+            }
+        }
         items.push(Item::Section(s));
     }
     DiffCase { items, final_newline: true }
